@@ -44,7 +44,7 @@ META = dict(
 )
 
 
-def build(ctx, times, mc, npairs, nbars, reg_order, nsusp, log):
+def build(ctx, times, mc, npairs, nbars, reg_order, nsusp, log, merged=False):
     """builds the stack and the strategy; returns (dispatcher, exchange, result dict)"""
     d = bs.backtesting_dispatcher(max_concurrent=mc)
     e = bex.Exchange(d, {"USD": Decimal(100000), "AAA": Decimal(100), "BBB": Decimal(100), "CCC": Decimal(100)},
@@ -58,6 +58,14 @@ def build(ctx, times, mc, npairs, nbars, reg_order, nsusp, log):
             b = bar.Bar(times[p][k] - datetime.timedelta(days=1), pair, o, o + 3, o - 2, o + 1, Decimal(1000))
             evs.append(bar.BarEvent(times[p][k], b))
         srcs[pair] = event.FifoQueueEventSource(events=evs)
+    if merged:
+        # one bar source carrying the bars of all pairs (e.g. a single CSV / feed), in time order
+        evs = []
+        for k in range(nbars):
+            for pair in pairs:
+                evs.append(srcs[pair]._queue[k])
+        one = event.FifoQueueEventSource(events=evs)
+        srcs = {pair: one for pair in pairs}
     res = dict(submitted={}, fills=[], names={}, seen_bars=[], errors=[])
     signals = trading_signal.TradingSignalSource(d)
     state = dict(n=0, followup=False)
@@ -112,8 +120,11 @@ def build(ctx, times, mc, npairs, nbars, reg_order, nsusp, log):
                 await submit("followup_sell_first", lambda: e.create_market_order(SELL, pairs[0], Decimal(1)))
 
     def reg_sources():
+        done = []
         for pair in pairs:
-            e.add_bar_source(srcs[pair])
+            if not any(srcs[pair] is x for x in done):
+                e.add_bar_source(srcs[pair])
+                done.append(srcs[pair])
 
     def reg_handlers():
         e.subscribe_to_bar_events(pairs[0], on_bar_first)
@@ -131,7 +142,8 @@ def build(ctx, times, mc, npairs, nbars, reg_order, nsusp, log):
     elif reg_order == 1:
         # interleaved: a derived (forwarded) bar source is registered before a later primary source
         for i, pair in enumerate(pairs):
-            e.add_bar_source(srcs[pair])
+            if i == 0 or not merged:
+                e.add_bar_source(srcs[pair])
             if i == 0:
                 e.subscribe_to_bar_events(pairs[0], on_bar_first)
         e.subscribe_to_bar_events(pairs[-1], on_bar_last)
@@ -163,7 +175,7 @@ def outcome(e, res):
     return bal, fills, final
 
 
-def scenario(ctx, npairs=3, nbars=2, max_mc=4, clause="lookahead"):
+def scenario(ctx, npairs=3, nbars=2, max_mc=4, clause="lookahead", merged=False):
     mc = ctx.int("max_concurrent", 1, max_mc)
     times = []
     for p in range(npairs):
@@ -175,9 +187,16 @@ def scenario(ctx, npairs=3, nbars=2, max_mc=4, clause="lookahead"):
             prev = t
             row.append(t)
         times.append(row)
+    if merged:
+        # the merged source is in non-decreasing time order: bar k of pair p <= bar k of pair p+1 <= bar k+1 of pair 0
+        for k in range(nbars):
+            for p in range(npairs - 1):
+                ctx.assume(times[p][k] <= times[p + 1][k])
+            if k + 1 < nbars:
+                ctx.assume(times[npairs - 1][k] <= times[0][k + 1])
     reg_order = ctx.choice("registration_order", 3)
     nsusp = ctx.choice("suspension_points", 3) if clause == "lookahead" else 0
-    d, e, res = build(ctx, times, mc, npairs, nbars, reg_order, nsusp, None)
+    d, e, res = build(ctx, times, mc, npairs, nbars, reg_order, nsusp, None, merged)
     run_dispatcher(d)
     # ---- no look-ahead: every fill is later than the submission of its order
     for oid, when, amt, q in res["fills"]:
@@ -190,14 +209,14 @@ def scenario(ctx, npairs=3, nbars=2, max_mc=4, clause="lookahead"):
     ctx.cover("run completed")
     if clause == "determinism":
         # 2-safety by self-composition: same inputs, max_concurrent = 50 (the pool never fills)
-        d2, e2, res2 = build(ctx, times, 50, npairs, nbars, reg_order, 0, None)
+        d2, e2, res2 = build(ctx, times, 50, npairs, nbars, reg_order, 0, None, merged)
         run_dispatcher(d2)
         a, b = outcome(e, res), outcome(e2, res2)
         ctx.prove(a[1] == b[1], "C03 the fill history does not depend on max_concurrent", info=(a[1], b[1]))
         ctx.prove(a[2] == b[2], "C03 final order states do not depend on max_concurrent", info=(a[2], b[2]))
         ctx.prove(a[0] == b[0], "C03 final balances do not depend on max_concurrent", info=(a[0], b[0]))
         # repeated run with the same max_concurrent
-        d3, e3, res3 = build(ctx, times, mc, npairs, nbars, reg_order, 0, None)
+        d3, e3, res3 = build(ctx, times, mc, npairs, nbars, reg_order, 0, None, merged)
         run_dispatcher(d3)
         c = outcome(e3, res3)
         ctx.prove(a == c, "C03 repeated runs give identical fills and balances")
@@ -213,6 +232,9 @@ def jobs(tier):
                       dict(npairs=npairs, nbars=2, max_mc=4, clause="lookahead"), **big))
         js.append(Job("determinism %d pairs x 2 bars" % npairs, "scenario",
                       dict(npairs=npairs, nbars=2, max_mc=4, clause="determinism"), **big))
+    for npairs in (2, 3):
+        js.append(Job("look-ahead %d pairs x 2 bars, one merged bar source" % npairs, "scenario",
+                      dict(npairs=npairs, nbars=2, max_mc=3, clause="lookahead", merged=True), **big))
     if tier == "thorough":
         js.append(Job("look-ahead 3 pairs x 3 bars", "scenario", dict(npairs=3, nbars=3, max_mc=5, clause="lookahead"),
                       **dict(big, split=600)))
